@@ -363,15 +363,15 @@ func hC02SubjectDID(c vc.VerifiableCredential) (*did.DID, error) {
 // Parsing of the vp_token / presentation_submission parameters and the PEX engine (C12) are replaced by
 // harness-chosen outcomes, keyed by the parameter text (so that two requests of one harness can differ).
 var (
-	hVPEnvelopes      map[string]*pe.Envelope               // vp_token text -> envelope; absent: ParseEnvelope fails
-	hVPSubmissions    map[string]*pe.PresentationSubmission // presentation_submission text -> submission; absent: parse error
-	hVPPEXVerdict     map[string]bool                       // submission id -> verdict of Validate
+	hVPEnvelopes   map[string]*pe.Envelope               // vp_token text -> envelope; absent: ParseEnvelope fails
+	hVPSubmissions map[string]*pe.PresentationSubmission // presentation_submission text -> submission; absent: parse error
+	hVPPEXVerdict  map[string]bool                       // submission id -> verdict of Validate
 	// lazily drawn parameters: the function is called when the code under test first parses the text (so that
 	// requests refused earlier do not multiply by the shapes of what they never look at)
-	hVPEnvelopeFns   map[string]func() *pe.Envelope
-	hVPSubmissionFns map[string]func() *pe.PresentationSubmission
-	hC02ValidatedDefs []string                              // definition ids Validate was called with
-	hVPValidatedSubs  []string                              // submission ids Validate was called with
+	hVPEnvelopeFns    map[string]func() *pe.Envelope
+	hVPSubmissionFns  map[string]func() *pe.PresentationSubmission
+	hC02ValidatedDefs []string // definition ids Validate was called with
+	hVPValidatedSubs  []string // submission ids Validate was called with
 )
 
 func hVPResetParsers() {
